@@ -60,6 +60,20 @@ fn check_tuple(ck: &mut Ck, a: &[u32], b: &[u32], c: &[u32], i: i32, n: i32) {
     chk!("str_indexof", format!("{} {} {}", fmt_w(a), fmt_w(b), i), str_indexof(&sa, &sb, i) as i64, o::indexof(a, b, i as i64));
     chk!("str_replace", format!("{} {} {}", fmt_w(a), fmt_w(b), fmt_w(c)), v(&str_replace(&sa, &sb, &sc)), o::replace(a, b, c));
     chk!("str_replace_all", format!("{} {} {}", fmt_w(a), fmt_w(b), fmt_w(c)), v(&str_replace_all(&sa, &sb, &sc)), o::replace_all(a, b, c));
+    // argument aliasing: the SAME object passed in two (three) positions must behave like equal values
+    if a.len() <= 6 || a.len() % 5 == 0 {
+        ck.rep.inc("aliased_argument_calls");
+        chk!("str_replace", format!("{} {} {}", fmt_w(a), fmt_w(a), fmt_w(c)), v(&str_replace(&sa, &sa, &sc)), o::replace(a, a, c));
+        chk!("str_replace_all", format!("{} {} {}", fmt_w(a), fmt_w(a), fmt_w(c)), v(&str_replace_all(&sa, &sa, &sc)), o::replace_all(a, a, c));
+        chk!("str_replace_all", format!("{} {} {}", fmt_w(a), fmt_w(a), fmt_w(a)), v(&str_replace_all(&sa, &sa, &sa)), o::replace_all(a, a, a));
+        chk!("str_replace", format!("{} {} {}", fmt_w(a), fmt_w(b), fmt_w(a)), v(&str_replace(&sa, &sb, &sa)), o::replace(a, b, a));
+        chk!("str_replace_all", format!("{} {} {}", fmt_w(a), fmt_w(b), fmt_w(b)), v(&str_replace_all(&sa, &sb, &sb)), o::replace_all(a, b, b));
+        chk!("str_contains", format!("{} {}", fmt_w(a), fmt_w(a)), str_contains(&sa, &sa), o::contains(a, a));
+        chk!("str_indexof", format!("{} {} {}", fmt_w(a), fmt_w(a), i), str_indexof(&sa, &sa, i) as i64, o::indexof(a, a, i as i64));
+        chk!("str_prefixof", format!("{} {}", fmt_w(a), fmt_w(a)), str_prefixof(&sa, &sa), o::prefixof(a, a));
+        chk!("str_suffixof", format!("{} {}", fmt_w(a), fmt_w(a)), str_suffixof(&sa, &sa), o::suffixof(a, a));
+        chk!("str_concat", format!("{} {}", fmt_w(a), fmt_w(a)), v(&str_concat(&sa, &sa)), o::concat(a, a));
+    }
 }
 
 fn all_words(alpha: &[u32], maxlen: usize) -> Vec<Vec<u32>> {
@@ -249,6 +263,44 @@ pub fn run(p: &Params, rep: &mut Report) {
         check_tuple(&mut ck, &subj, &pat, &[0x5A], i, pat.len() as i32);
         ck.rep.eval(Some(&format!("border{}|{}", fmt_w(&subj), fmt_w(&pat))));
         ck.rep.inc("bordered_pattern_tuples");
+    }
+    // neighbouring code points and their copies in the other planes (same low 16 bits): all subjects up to length 3
+    // against all patterns of length 1-2 over {0x60, 0x61, 0x10060, 0x10061, 0x20061, 0x62}
+    {
+        let alpha = [0x60u32, 0x61, 0x10060, 0x10061, 0x20061, 0x62];
+        let subj = all_words(&alpha, 3);
+        let pats = all_words(&alpha, 2);
+        let mut idx2 = 0u64;
+        for a in &subj {
+            for b in pats.iter().filter(|b| !b.is_empty()) {
+                idx2 += 1;
+                if idx2 % p.nshards != p.shard {
+                    continue;
+                }
+                check_tuple(&mut ck, a, b, &[0x5a], 0, 2);
+                ck.rep.inc("plane_copy_tuples");
+            }
+        }
+        ck.rep.eval(Some("plane-copies"));
+    }
+    // Thue-Morse words (the classical worst case for polynomial fingerprints modulo 2^64): t_k against its letter-wise
+    // complement, whole and as factors of a longer subject
+    if p.shard % 4 == 0 {
+        for order in [10u32, 11, 12] {
+            let n = 1usize << order;
+            let t: Vec<u32> = (0..n).map(|i| if (i as u32).count_ones() % 2 == 0 { 0x61 } else { 0x62 }).collect();
+            let u: Vec<u32> = t.iter().map(|&c| if c == 0x61 { 0x62 } else { 0x61 }).collect();
+            check_tuple(&mut ck, &u, &t, &[0x63], 0, 5);
+            check_tuple(&mut ck, &t, &u, &[0x63], 0, 5);
+            let mut long: Vec<u32> = vec![0x63];
+            long.extend_from_slice(&u);
+            long.push(0x63);
+            long.extend_from_slice(&u[..n / 2]);
+            check_tuple(&mut ck, &long, &t, &[], 1, 5);
+            check_tuple(&mut ck, &long, &t[..n / 2].to_vec(), &[0x64], 0, 5);
+            ck.rep.inc("thue_morse_tuples");
+            ck.rep.eval(Some(&format!("thue-morse{}", order)));
+        }
     }
     // periodic, palindromic and constant strings: subject u^k v against patterns u^j w (every period 1-4 over two letters)
     let nper = p.size(400, 4000);
